@@ -10,14 +10,7 @@ package hessian
 func H_C12_no_shared_writes() {
 	probe := &ZOuter{A: vInt32("a"), In: ZInner{N: 7, S: "in"}, P: &ZInner{N: 3, S: "p"}, Z: 11}
 	lists := &ZLists{Ss: []string{"a", ""}, Is: []int32{vInt32("i")}, Ps: []*ZInner{probe.P, probe.P}}
-	tm, nm := vExtract(probe)
-	t2, n2 := vExtract(lists)
-	for k, x := range t2 {
-		tm[k] = x
-	}
-	for k, x := range n2 {
-		nm[k] = x
-	}
+	tm, nm := vExtractAll(probe, lists)
 	ref, err := ToBytes(probe, nm)
 	vAssume(err == nil)
 	// from here on everything another goroutine could reach is read-only
@@ -63,7 +56,7 @@ func H_C12_no_shared_writes() {
 		p.Return(s)
 	case 7:
 		// hostile input on a private decoder must not touch shared state either
-		NewDecoder(nil, tm).Decode(vBytes("garbage", 2))
+		NewDecoder(nil, tm).Decode([]byte{vUint8("garbage"), 0x01, 0x41})
 		vAssert("returned", true)
 	}
 }
